@@ -5,6 +5,7 @@ import contextlib
 import csv
 import io
 import itertools
+import json
 import os
 
 import sweetpea as sp
@@ -12,6 +13,7 @@ import sweetpea._internal.main as M
 from sweetpea._internal.primitive import HiddenName
 
 from . import designs as D
+from .designs import quiet
 from . import i12_oracle as O
 from .i4_text import _Tmp
 
@@ -104,6 +106,8 @@ def corr_api(ctx):
             facs = [sp.Factor(nm, rng.sample(["a", "b", "c", "x y"], rng.randint(1, 3))) for nm in fnames]
             fj = [[f.name, [l.name for l in f.levels]] for f in facs]
             for e in exps[:1]:
+                if it % 2:
+                    e = json.loads(json.dumps(e))        # equal strings, other objects (a reloaded experiment)
                 trials = None if it % 3 else [rng.randrange(max(n, 1)) for _ in range(rng.randint(0, 4))]
                 tl = list(range(len(e[list(e.keys())[0]]))) if trials is None else trials
                 buf = io.StringIO()
@@ -127,9 +131,40 @@ def oracle_c20(ctx, budget_s):
     ctx.rules.append("C20 oracle: generated designs (incl. weighted uncrossed factors, so that hidden factors exist); "
                      "synthesized experiments contain exactly the user-declared factor names; experiments_to_tuples / "
                      "_dicts / save_experiments_csv reproduce every cell of every trial in order")
+    def reused_outer_cases():
+        # one outer block object used in two combinators one after the other: the second block's experiments and
+        # conversions must show exactly the factors declared for *it*
+        ses, fa, fb, fc = O._sf(0, ["s1", "s2"]), O._sf(1, ["a1", "a2"]), O._sf(2, ["b1", "b2"]), O._sf(3, ["c1", "c2", "c3"])
+        outer = {"k": "cross", "design": [0], "crossing": [0], "rcc": True, "cs": [], "obj": "outer"}
+        in1 = {"k": "cross", "design": [1, 2], "crossing": [1, 2], "rcc": True, "cs": []}
+        in2 = {"k": "cross", "design": [3], "crossing": [3], "rcc": True, "cs": []}
+        firsts = [{"k": "nest", "outer": outer, "inner": in1, "cs": [], "align": None},
+                  {"k": "merge", "bs": [outer, in1], "cs": [], "mode": "repeat", "align": None}]
+        seconds = [{"k": "nest", "outer": outer, "inner": in2, "cs": [], "align": None}, outer,
+                   {"k": "repeat", "b": outer, "cs": [{"k": "MinimumTrials", "n": 4}]}]
+        for first in firsts:
+            for second in seconds:
+                factors = [ses, fa, fb, fc]
+                built = D.Built()
+                for f in factors:
+                    built.factors[f["id"]] = D.build_factor({"factors": factors}, f["id"], built)
+                shared = {}
+                try:
+                    quiet(D.build_block, {"factors": factors, "block": first}, first, built, shared)
+                    blk = quiet(D.build_block, {"factors": factors, "block": second}, second, built, shared)
+                except Exception:
+                    continue
+                case = O.Case(ctx, {"factors": factors, "block": json.loads(json.dumps(second))})
+                case.regs = set()
+                ctx.count("C20.reused-outer")
+                yield case, blk
     with _Tmp() as tmp:
-        for case in OD.gen_cases(ctx, budget_s, composite=ctx.rng.random() < 0.5):
-            blk = case.fresh_block()
+        def all_cases():
+            for case, blk in reused_outer_cases():
+                yield case, blk
+            for case in OD.gen_cases(ctx, budget_s, composite=ctx.rng.random() < 0.5):
+                yield case, case.fresh_block()
+        for case, blk in all_cases():
             try:
                 exps = O.synth(blk, 3, "IterateSATGen")
             except (Exception, O.CallTimeout):
@@ -181,8 +216,12 @@ def oracle_c21(ctx, budget_s):
         n += 1
         keys = ["f%d" % i for i in range(rng.randint(1, 3))]
         ntr = rng.randint(1, 8)
-        lv = {k: rng.sample(["a", "b", "c", "d"], rng.randint(1, 3)) for k in keys}
+        lv = {k: rng.sample(["a", "b", "c", "d"] if n % 2 else ["red", "green", "blue", "dark grey"], rng.randint(1, 3)) for k in keys}
         exps = [{k: [rng.choice(lv[k] + ["zz"]) for _ in range(ntr)] for k in keys} for _ in range(rng.randint(1, 3))]
+        if n % 4 < 2:
+            # experiments as they come back from a file or another process: equal strings, not the level names' objects
+            exps = json.loads(json.dumps(exps))
+            ctx.count("C21.reloaded")
         sel = rng.sample(keys, rng.randint(1, len(keys)))
         facs = [sp.Factor(k, lv[k]) for k in sel]
         trials = None if rng.random() < 0.4 else [rng.randrange(ntr) for _ in range(rng.randint(1, 6))]
